@@ -216,11 +216,15 @@ prop("C10", lambda tier: [
              "build/c10e2/c10e2 --stats {stats} --tier thorough --jobs {jobs}", "E2 unitmc (explicit-state, access granularity, SC and x86-TSO)"),
         e1("c10m", "harness/c10_migrate.c")],
      "E3: set(k) then get(all 1024) for every key, ordered key pairs, all set-sequences of length <=3/4 over 13 representative keys x 3 values vs a dict, out-of-range indices, "
-     "all key-table create/delete histories to depth 6/7 + exhaustion at 1024; E2: every interleaving of create / delete-own programs of 2-3 participants on the real key table; "
+     "all key-table create/delete histories (incl. double delete and delete of never-created keys) to depth 6/7 + exhaustion at 1024; E2: every interleaving of myth_key_create / myth_key_delete "
+     "(delete-own) programs of 2-3 participants on the real key table, destructor registration included; "
      "E1: threads sharing a key across yields and workers, concurrent key creation, x all schedules with <= K deviations")
 prop("C11", lambda tier: [
         binc("c11", ASAN_BUILD % ("c11", "harness/c10_tls.c"), "env ASAN_OPTIONS=detect_leaks=0 build/c11/c11 --part c11 --stats {stats} --tier quick",
-             "env ASAN_OPTIONS=detect_leaks=0 build/c11/c11 --part c11 --stats {stats} --tier thorough", "E3 seqmc (bounded exhaustive key subsets x destructor masks vs expected call list; ASan+UBSan; forked child per case)")],
+             "env ASAN_OPTIONS=detect_leaks=0 build/c11/c11 --part c11 --stats {stats} --tier thorough", "E3 seqmc (bounded exhaustive key subsets x destructor masks vs expected call list; ASan+UBSan; forked child per case)"),
+        binc("c11e2", "E2_EXCLUDE=none engine/build_e2.sh c11e2 harness/c10_keyalloc_e2.c", "build/c11e2/c11e2 --prop C11 --comp c11e2 --stats {stats} --tier quick --jobs {jobs}",
+             "build/c11e2/c11e2 --prop C11 --comp c11e2 --stats {stats} --tier thorough --jobs {jobs}", "E2 unitmc (explicit-state, access granularity, SC and x86-TSO)")],
+     "E2: every interleaving of myth_key_create / myth_key_delete programs of 2-3 participants on the real key table: a live key keeps the destructor its creator registered; "
      "every single key 0..1023 with destructor and value; every subset of size <=2/3 of 13 representative keys x destructor mask x NULL/non-NULL mask, on a private tree and key table; "
      "whole library on one worker: 4 key sets x {return, myth_exit, cancel+testcancel}",
      assumptions=["the unit harness #includes src/myth_tls_func.h and calls myth_tls_tree_set / myth_tls_tree_fini exactly as thread creation and exit do", "AddressSanitizer turns any read outside the 1024-entry key table into a verdict"])
